@@ -3,9 +3,13 @@
 A case: {"now": us since the epoch (UTC), "cron": five-field string, "off": None | {"kind": "td", "us": n} |
 {"kind": "zone", "zone": name}, optional "spec": [five values, str or int] -> the expression is built by
 taskiq's CronSpec(...).to_cron() and the offset travels through CronSpec.offset, as AsyncKicker.schedule_by_cron
-does}.  Only observations of /repo code (and of pytz, which it calls) are returned; the oracle side (zoneinfo reader,
+does}.  A case {"group": [case, case, ...]} is a back-to-back group: its elements are evaluated one after the other in
+THIS process in the given order (what a long-lived scheduler does tick after tick - anything get_task_delay keeps
+between calls is shared by them); the observation is {"group": [observation, ...]}.  Because the whole group is one
+case, the grouping does not depend on how the harness shards the case list.  Only observations of /repo code (and of pytz, which it calls) are returned; the oracle side (zoneinfo reader,
 matcher) lives in harness/props/C13.py."""
 import datetime as dt
+import traceback
 
 import pytz
 
@@ -37,6 +41,19 @@ def td_us(d):
 
 
 def run_case(c, opts):
+    if "group" in c:
+        return {"group": [guarded(e) for e in c["group"]]}
+    return run_one(c)
+
+
+def guarded(e):
+    try:
+        return run_one(e)
+    except Exception:  # a crash of one element is that element's observation; the rest of the group still runs
+        return {"_crash": traceback.format_exc()[-2000:]}
+
+
+def run_one(c):
     NOW[0] = EP + dt.timedelta(microseconds=c["now"])
     off = c["off"]
     if off is None:
